@@ -165,10 +165,11 @@ class HeapState:
         if fn is None:
             raise HarnessError(f"unknown op {kind}")
         for key in ("on", "a", "b", "src"):
-            if key in o and o[key] not in self.h:
+            if key in o and isinstance(o[key], int) and o[key] not in self.h:
                 return "skipped"
         self.nsteps += 1
         self.stats.hit("op/" + kind)
+        self.extra["cur_op"] = o
         outcome = fn(self, o)
         if outcome == "skipped":
             return outcome
